@@ -221,7 +221,7 @@ var parseAudit = map[string]string{
 func runC11(r *Run) {
 	w := r.W
 	r.Explain = "Static decision of structural necessary conditions of C11 (chain liveness) on the UNRECOVERED paths only - functions reachable from Begin/EndBlock, the wired epoch hooks and the staking-interface callbacks that the SDK's slashing/evidence/gov modules invoke from their Begin/EndBlockers: (R1) every explicit panic, Must* call and unchecked type assertion there belongs to an accepted class (codec of the module's own store values, addresses the module stored itself, exhaustive type switches) or is reported; (R2) no pointer/map/interface result is dereferenced after its error was merely logged or discarded; (R3) every division has a divisor that is a positive constant, is dominated by a non-zero test, or is validated non-zero at its writers; (R5) parse results (SetString) are checked."
-	r.NotDec = []string{"out-of-range indexing, integer overflow panics inside sdk.Int, allocation blow-ups, infinite loops", "panics inside dependencies", "DeliverTx/CheckTx paths (recovered by baseapp.runTx - trusted base)", "feasibility of the audited sites is argued by reading"}
+	r.NotDec = []string{"integer overflow panics inside sdk.Int, allocation blow-ups, infinite loops, nil map writes", "panics inside dependencies", "DeliverTx/CheckTx paths (recovered by baseapp.runTx - trusted base)", "feasibility of the audited sites is argued by reading"}
 	r.Assume = []string{"baseapp recovers panics in runTx only", "gov.EndBlocker -> Tally calls StakingKeeper.IterateDelegations and TotalBondedTokens (cosmos-sdk v0.47 x/gov/keeper/tally.go)"}
 	r.rule("C11.R1", "explicit panics / Must* / unchecked type assertions reachable from unrecovered roots are of an accepted class", 90)
 	r.rule("C11.R2", "no dereference of a pointer/map/interface result after its error was logged-and-continued or discarded", 2)
@@ -229,6 +229,8 @@ func runC11(r *Run) {
 	r.rule("C11.R3w", "witnesses for the audited divisor: TokenFeeder validation rejects Interval < 1; every writer of oracle params validates or constructs non-zero intervals", 4)
 	r.rule("C11.R5", "the ok result of big.Int.SetString / NewIntFromString is checked before the value is used on unrecovered paths", 2)
 	r.rule("C11.R6", "arithmetic that panics on a negative result in block processing stays non-negative by construction: the fee-distribution remainder (C17.R3/R4 obligations) and the slashed-undelegation clamp (C04.R2)", 8)
+	r.rule("C11.R7", "every index/slice expression on an unrecovered path whose bounds check the Go compiler cannot eliminate is dominated by a length test, is of a safe shape (range index, sort comparator, parsed-n, split-first), or is audited", 40)
+	c11Bounds(r)
 	if r.Prop == "C11" {
 		sub := NewRun(r.W, "C17", r.Tier, r.Seed)
 		runC17(sub)
